@@ -88,7 +88,7 @@ Definition view_set (cs : list conn) (p i : nat) : list conn :=
 
 Section Swarm.
 Variable P : Type.
-Variable plen : P -> nat.      (* PieceReader.Length() *)
+Variable plen : P -> N.        (* PieceReader.Length() *)
 Variable sum : P -> N.         (* core.PieceHash over the payload *)
 
 (* a WritePiece in progress: piece, sending peer, payload *)
@@ -205,7 +205,7 @@ Definition sum_ok (g : cfg) (i : nat) (b : P) : bool :=
   match nth_error (g_sums g) i with Some v => N.eqb (sum b) v | None => false end.
 (* metainfo.GetPieceLength(i) = the length of the blob's piece i; isFullPiece (dispatcher.go:541) *)
 Definition len_ok (g : cfg) (i : nat) (b : P) : bool :=
-  match nth_error (g_blob g) i with Some pj => Nat.eqb (plen b) (plen pj) | None => false end.
+  match nth_error (g_blob g) i with Some pj => N.eqb (plen b) (plen pj) | None => false end.
 
 Definition step (g : cfg) (s : state) (l : label) : option state :=
   match l with
@@ -441,7 +441,7 @@ Definition set_eqb (a b : list nat) : bool := subset a b && subset b a.
 
 (* boolean collision-freedom over a finite list of payloads *)
 Definition cf_list (g : cfg) (bs : list P) : bool :=
-  forallb (fun b => forallb (fun pj => implb (Nat.eqb (plen b) (plen pj) && N.eqb (sum b) (sum pj)) (peqb b pj))
+  forallb (fun b => forallb (fun pj => implb (N.eqb (plen b) (plen pj) && N.eqb (sum b) (sum pj)) (peqb b pj))
                             (g_blob g)) bs.
 
 Definition received_by (x : nat) (rs : list recv) : list nat :=
